@@ -33,7 +33,7 @@ BETAS_REAL = [(((1, 1), (0, 1)), ((0, 1), (0, 1))), (((0, 1), (0, 1)), ((1, 1), 
 BETAS_ABS = [(((3, 4), (3, 5)), ((1, 1), (-9, 20))), (((0, 1), (3, 4)), ((5, 4), (0, 1)))]
 
 
-def cfg(tier, emit, variant='design', configs=None):
+def cfg(tier, emit, variant='design', configs=None, pols=('s', 'p')):
     q = tier == 'quick'
     c = 'INIT Init\nNEXT Next\nCHECK_DEADLOCK FALSE\nCONSTANTS\n MaxLayers = %d\n Variant = "%s"\n EmitOn = %s\n' % (1 if q else 2, variant, 'TRUE' if emit else 'FALSE')
     c += 'INVARIANT Emit\n' if emit else 'INVARIANT SnellLaw\nINVARIANT EnergyLaw\nINVARIANT FresnelLaw\nINVARIANT AbsenteeLaw\n'
@@ -41,7 +41,8 @@ def cfg(tier, emit, variant='design', configs=None):
     betas = BETAS_REAL[:5]            # (thorough: two thin layers + substrate over the same 5 phase thicknesses; a 6th made the emission run exceed 50 min)
     d = dict(Configs='{%s}' % ', '.join('[n0 |-> %s, c0 |-> %s, s0 |-> %s, media |-> {%s}]' % (
         R(*k['n0']), R(*k['c0']), R(*k['s0']), ', '.join('<<%s, %s>>' % (GRat(m[0], m[1]), R(*m[2])) for m in k['media'])) for k in cs),
-        Betas='{%s}' % ', '.join('<<%s, %s>>' % (GRat(*b[0]), GRat(*b[1])) for b in betas))
+        Betas='{%s}' % ', '.join('<<%s, %s>>' % (GRat(*b[0]), GRat(*b[1])) for b in betas),
+        EmitPols='{%s}' % ', '.join('"%s"' % x for x in pols))
     return c, d
 
 
@@ -176,8 +177,10 @@ def run(ctx, replay_path=None, selftest=False, replay=None):
         raise core.Machinery('ThinFilm laws explored only %d states' % rl.distinct)
     c, d = cfg('quick', False, variant='rp-pinned', configs=CONFIGS[1:2])
     ctx.tlc('ThinFilm', c, defs=d, name='pinned-rp', emit=False, must_hold=False, count=False, coverage=False, timeout=3000)
-    thunks = [(lambda k=k: ctx.tlc('ThinFilm', cfg(ctx.tier, True, configs=[k])[0], defs=cfg(ctx.tier, True, configs=[k])[1], name='emit-config%d' % CONFIGS.index(k),
-                                   coverage=False, count=False, timeout=9000)) for k in CONFIGS]
+    # emission partitioned by configuration (thorough: and by polarisation) over parallel single-worker runs
+    parts = [(k, pols) for k in CONFIGS for pols in ((('s', 'p'),) if ctx.tier == 'quick' else (('s',), ('p',)))]
+    thunks = [(lambda k=k, pols=pols: ctx.tlc('ThinFilm', cfg(ctx.tier, True, configs=[k], pols=pols)[0], defs=cfg(ctx.tier, True, configs=[k], pols=pols)[1],
+                                              name='emit-config%d-%s' % (CONFIGS.index(k), ''.join(pols)), coverage=False, count=False, timeout=9000)) for k, pols in parts]
     recs = []
     for part in core.parallel(thunks):
         recs += part.records
